@@ -99,6 +99,13 @@ def h_mps_numeric(V, family, N, seed):
     guess = mps.zipper(H, psi, opts_svd={'D_total': 2})
     out = mps.compression_(guess, [H, psi], method='2site', max_sweeps=20, opts_svd={'D_total': 10 ** 6, 'tol': 1e-13}, normalize=False)
     V.check('variational-compression-without-truncation-converges-to-the-exact-product', close(dense_in_space(ops, guess), want))
+    # sum of targets whose kets carry different norm factors: each term enters with its full weight
+    chi = 2.5 * psi.copy()
+    for method in ('1site', '2site'):
+        guess = mps.zipper(H, psi, opts_svd={'D_total': 10 ** 6, 'tol': 1e-14})
+        opts = {'opts_svd': {'D_total': 10 ** 6, 'tol': 1e-13}} if method == '2site' else {}
+        mps.compression_(guess, [[H, psi], [chi]], method=method, max_sweeps=20, normalize=False, **opts)
+        V.check('variational-compression-of-a-sum-of-targets-converges-to-the-exact-sum', close(dense_in_space(ops, guess), want + 2.5 * v))
     # ---- tensor -> MPS ---------------------------------------------------------------------------------------------------
     T = psi.to_tensor()
     for canon in ('last', 'first'):
